@@ -8,6 +8,12 @@ TB = ("Trusted: Lean 4.33.0 kernel; axioms propext/Quot.sound/Classical.choice o
       "working tree on every run (differential, exhaustive on the small axes, sampled elsewhere); Go stdlib semantics written into the model.")
 
 CLAIMS = {
+ "C01": dict(
+   text="Lean theorem C01_partial: for every framing, transaction id and argument record, if the model constructor accepts then the arguments are within the specification's limits, the encoded bytes equal Spec.adu (MBAP header with protocol id 0 and length = following bytes / unit first and CRC last, big-endian fields, byte count = payload length, coils LSB-first) and the frame is at most 260/256 bytes - for all inputs outside the two known-finding regions (FC16 with 124 registers, FC23 with 122..124 write registers: the code accepts them, tests pin the messages), whose witnesses are theorems too (C01_full_false). Tie to the code: all 20 constructors + Bytes() run against the model over every quantity 0..2200 (thorough: 0..65535), every coil count 0..2100, every payload length 0..300, the uint16 conversion wrap.",
+   ref="DESIGN.md §3 C01", technique="Lean 4 proof (case analysis per constructor, list/BitVec arithmetic) + differential correspondence check"),
+ "C10": dict(
+   text="Lean theorems (Properties/C10.lean): each of the 50 parse entry points of the model, given ANY visible bytes and ANY content of the slice's spare capacity, returns the same result as with empty spare capacity and never panics. The model's slices follow Go (index checks against len, re-slicing against cap, exposing stale bytes), so a missing guard makes the theorem false. Tie to the code: every entry point is run on every length 0..300 with header-consistent frames, truncations of valid frames (with the rest of the frame in the spare capacity), byte counts 0..255 x lengths around them, mutations and noise, each with exact-capacity and poisoned-capacity slices; nil-value-on-error checked by reflection.",
+   ref="DESIGN.md §3 C10", technique="Lean 4 proof (guard arithmetic by omega over a Go-slice model) + differential correspondence check"),
  "C03": dict(
    text="Lean theorems: CRC16 model = bit-serial Modbus CRC for every byte string (induction over the message, linearity of the shift register); every RTU encoder's output ends with that CRC low byte first; the WithCRC entry points return ErrInvalidCRC iff the trailer differs from the CRC of the rest. Tie to the code: differential run of packet.CRC16, all RTU encoders and ParseRTU*WithCRC against the model (all 1- and 2-byte messages = every 16-bit state, every length 0..300, all 65536 exception frames; thorough: all 2^24 three-byte messages and all 65536 trailers on 40+ frames).",
    ref="DESIGN.md §3 C03", technique="Lean 4 proof (induction, BitVec algebra) + differential correspondence check"),
